@@ -198,6 +198,8 @@ def generate(ctx, unrepaired):
     d2, d1 = (4, 5) if quick else (5, 6)
     runs = [("1, 2", "1", d2, "g1"), ("1, 2", "1", d2, "g1b"), ("1, 2", "1", d2, "remove"),
             ("1", "1", d1, "g1"), ("1", "1", d1, "remove")]
+    # one delegator with delegations to three validators (seeded prelude of 7 operations), 3 / 4 further operations
+    runs.append(("1, 2, 3", "1", 7 + (3 if quick else 4), "deleg3"))
     if not quick:
         runs.append(("1", "1, 2", 5, "g1b"))
     for vals, accts, depth, alpha in runs:
